@@ -6,7 +6,8 @@ scheduler with injected interrupts and environment perturbations.  Oracles: (O1)
 same operation executed solo on fresh objects in a pristine process; (O2) snapshots - nothing changes except what an
 operation's contract allows."""
 from pbsim import gen, simgen
-from pbsim.simprop import minimise_spec, record, replay_spec, run_spec, summarise_sim
+from pbsim.simprop import (minimise_spec, record, replay_spec, run_spec, summarise_sim, sweep_depth1,
+                           sweep_interrupts)
 from pbsim.util import rng_for
 from pbsim.world import empty_world
 
@@ -79,6 +80,16 @@ def accept(v, spec, hist):
 
 def run_case(seed, tier, idx):
     spec = gen_spec(seed, tier)
+    r = rng_for(seed, "sweep").random()
+    p_int, p_d1, n = (0.2, 0.15, 24) if tier == "thorough" else (0.04, 0.04, 8)
+    if r < p_int:
+        return sweep_interrupts(spec, accept, n)
+    if r < p_int + p_d1:
+        clients = [i for i, p in enumerate(spec["programs"]) if spec["roles"].get(str(i)) == "client"]
+        if len(clients) >= 2:
+            rec = sweep_depth1(spec, accept, n)
+            if rec is not None:
+                return rec
     hist, viol, stats = run_spec(spec, accept)
     return record(spec, hist, viol, stats)
 
